@@ -120,3 +120,44 @@ def pesf_judge(case, impl_line):
         if p.pusi and not exp_begin: quarantined = True      # unrecognised header: nothing delivered until the next begin
         prev = p.cc
     return None
+
+def parse_sec(nums, compact, npkts):
+    """per packet: list of deliveries (header tuple, origin, bytes)"""
+    out = []; i = 0
+    for _ in range(npkts):
+        cnt = nums[i]; i += 1; dl = []
+        for _ in range(cnt):
+            hdr = tuple(nums[i:i + 4]); i += 4
+            tsh = None
+            if not compact: tsh = tuple(nums[i:i + 5]); i += 5
+            origin = (nums[i], nums[i + 1]); i += 2
+            ln = nums[i]; i += 1
+            data = bytes(nums[i:i + ln]); i += ln
+            dl.append((hdr, tsh, origin, data))
+        out.append(dl)
+    if i != len(nums): raise ValueError("trailing numbers")
+    return out
+
+def sec_judge(case, impl_line):
+    """C03 predicate: from the start packet on, the target section is delivered exactly once with exactly
+    its bytes (never, when its section_length exceeds 1021)"""
+    toks = case.split()
+    truth = [t for t in toks if t.startswith("#")][0][1:]
+    start, shex = truth.split(":")
+    start = int(start); S = unhex(shex)
+    pk = [t for t in toks[2:] if not t.startswith("#")]
+    compact = int(toks[1]) & 1 == 1
+    nums = parse_obs(impl_line)
+    if nums is None: return "implementation panicked"
+    try: per = parse_sec(nums, compact, len(pk))
+    except Exception as x: return f"undecodable observation ({x})"
+    L = ((S[1] & 0x0f) << 8) | S[2]
+    hits = [d for dl in per[start:] for d in dl if d[3] == S]
+    if L > 1021:
+        return "a section declaring a length above 1021 was delivered" if hits else None
+    if len(hits) != 1:
+        return f"target section delivered {len(hits)} times (expected exactly once) from its start packet on"
+    d = hits[0]
+    if d[0] != (S[0], S[1] >> 7, (S[1] >> 6) & 1, L):
+        return "delivered header fields differ from the section's"
+    return None
